@@ -20,7 +20,7 @@ ASSUMPTIONS = [
     "reference order vlib/ref/names.py (RFC 4034 §6.1: explicit A-Z fold table, reversed label tuples, relative < absolute)",
     "minimality of successor/predecessor is not demanded, only strict order / wrap to origin",
 ]
-REQUIRED = ["mon.relativize_operator_spelling", "mon.relativize_roundtrip_relative_origin", "mon.pair_order", "mon.triple_transitivity", "mon.successor", "mon.predecessor", "mon.relativize_roundtrip", "mon.namedict"]
+REQUIRED = ["mon.canonical_form_with_origin", "mon.relativize_operator_spelling", "mon.relativize_roundtrip_relative_origin", "mon.pair_order", "mon.triple_transitivity", "mon.successor", "mon.predecessor", "mon.relativize_roundtrip", "mon.namedict"]
 BUDGET = {"quick": 40.0, "thorough": 420.0}
 
 ALPHA = b"@AZ[\\]^_`az{\x00\xff" + b"aAbBzZ" + b"0-*"
@@ -150,6 +150,18 @@ def check_pair(ctx, a, b):
         if rrel == "SUBDOMAIN" and len(a) == len(b) + 1:
             if na.parent() != nb:
                 ctx.violation("parent-disagrees-with-relation", f"{a!r} vs {b!r}", case)
+        # one canonical form: the digestable form of a relative name under an origin is the lower-cased wire form of the full
+        # name, on both spellings of to_wire (with and without a file)
+        if not (a and a[-1] == b"") and (b and b[-1] == b"") and R.fits(tuple(a) + tuple(b)):
+            import io as _io
+
+            ctx.count("mon.canonical_form_with_origin")
+            want_c = b"".join(bytes([len(l)]) + R.fold(l) for l in tuple(a) + tuple(b))
+            got_c = na.to_digestable(nb)
+            f = _io.BytesIO()
+            na.to_wire(f, None, nb, True)
+            if got_c != want_c or f.getvalue() != want_c:
+                ctx.violation("canonical-form-of-relative-name-under-origin-not-lower-cased", f"{a!r} origin {b!r}: to_digestable {got_c!r}, to_wire(file, canonicalize) {f.getvalue()!r}", case)
         # relativize / derelativize round trip
         both_rel = not (a and a[-1] == b"") and not (b and b[-1] == b"")
         if (b and b[-1] == b"" and a and a[-1] == b"") or both_rel:
